@@ -305,8 +305,9 @@ pub fn free_strategy(_t: Tier) -> BoxedStrategy<Case> {
         prop::option::of(vergen::tokens(5)),
         prop::collection::vec(vergen::edit(), 0..=2),
         any::<u16>(),
+        prop::option::weighted(0.08, crate::engine::dict::string_token(vergen::version_token_char, "a")),
     )
-        .prop_map(|(base, mut ops, rel, ver, edits, sel)| {
+        .prop_map(|(base, mut ops, rel, ver, edits, sel, suffix)| {
             // now and then both bounds are the same text, or one bound is very long
             if ops.len() == 2 && sel % 8 == 3 {
                 ops[1].1 = ops[0].1.clone();
@@ -334,6 +335,11 @@ pub fn free_strategy(_t: Tier) -> BoxedStrategy<Case> {
             };
             let pattern = crate::models::dewey::cap_digit_runs(&pattern, 18);
             // now and then the candidate is the pattern's own text
+            // (a token of the library's own source glued to the end of the version, now and then)
+            let ver = match suffix {
+                Some(s) => format!("{}{}", ver, s),
+                None => ver,
+            };
             let name = if sel % 32 == 7 { pattern.clone() } else { crate::models::dewey::cap_digit_runs(&format!("{}-{}", nbase, ver), 18) };
             Case { pattern, name }
         })
